@@ -72,7 +72,7 @@ def check (st : St) (toks : List String) (obs : Option String) : St × Option St
   | "cfg" :: "breaker" :: rest =>
     let (b, _) := Driver.Breaker.step {} ("cfg" :: rest)
     ({ st with cands := [.brk b] }, none)
-  | ["cfg", "bulkhead", cap, _] => ({ st with cands := [.bh (cap.toNat?.getD 1) 0] }, none)
+  | ["cfg", "bulkhead", cap, _] => ({ st with cands := [.bh (cap.toNat?.getD 0) 0] }, none)
   | "cfg" :: kind :: rest =>
     let (l, _) := Driver.Limiter.step {} ("cfg" :: kind :: rest)
     ({ st with cands := [.lim l] }, none)
